@@ -32,6 +32,10 @@ import (
 	"verif/ref/refblock"
 )
 
+// maxReported bounds the number of individually confirmed (3 re-runs each) and
+// reported violations; a systematic break fails thousands of cases.
+const maxReported = 40
+
 type job struct {
 	pl      *plan
 	ctx     ctxSpec
@@ -276,6 +280,10 @@ func main() {
 			fmt.Fprintf(os.Stderr, "DUMP %-55s connected=%-5v expect=%v err=%.110s\n", key, res.Connected, cs.Expect, res.CandErr)
 		}
 		if res.Fail == "" {
+			continue
+		}
+		if r.Violations() >= maxReported {
+			r.Add("further_failing_cases_not_individually_confirmed", 1)
 			continue
 		}
 		// confirm 3x before believing it
